@@ -7,7 +7,7 @@ from ..generic_instructions import Label, RegisterUseDef
 from ..isa import Isa
 from ..encoding import Instruction, Operand, Syntax, Constructor, Relocation
 from .. import effects
-from ...utils.bitfun import wrap_negative
+from ...utils.bitfun import wrap_negative, wrap_signed
 from ..token import Token, u8, u16, u32, u64, bit_range, bit
 from .registers import rcx, al, cl, rax, rdx, rbp, eax, edx, ecx, cx, dx
 from .registers import rsp, ax, Register32
@@ -143,7 +143,7 @@ class Rel32JmpRelocation(Relocation):
 
     def calc(self, sym_value, reloc_value):
         offset = sym_value - reloc_value + self.addend
-        return offset
+        return wrap_signed(offset, 32)
 
 
 @isa.register_relocation
@@ -166,7 +166,7 @@ class Jmp8Relocation(Relocation):
 
     def calc(self, sym_value, reloc_value):
         offset = sym_value - (reloc_value + 1)
-        return offset
+        return wrap_signed(offset, 8)
 
 
 @isa.register_relocation
